@@ -420,6 +420,164 @@ fn eval_c20(case: &Case, acc: &Acc) -> Vec<Violation> {
     out
 }
 
+
+// ---------------------------------------------------------------------------------------------
+// C19 deep family: very long / deeply nested inputs in worker subprocesses on a thread with the
+// default 2 MiB thread stack (a stack overflow aborts the process: neither Ok nor Err)
+// ---------------------------------------------------------------------------------------------
+
+const DEEP_GRAMMARS: [(&str, &str); 8] = [
+    ("nest_ll", "%start S\n%%\nS: '(' S ')' | 'x';\n"),
+    ("nest_lr", "%start S\n%grammar_type 'LALR(1)'\n%%\nS: '(' S ')' | 'x';\n"),
+    ("unit_ll", "%start S\n%%\nS: E; E: T; T: F; F: '(' E ')' | 'x';\n"),
+    ("unit_lr", "%start S\n%grammar_type 'LALR(1)'\n%%\nS: E; E: T; T: F; F: '(' E ')' | 'x';\n"),
+    ("list_ll", "%start S\n%%\nS: 'a' S | ;\n"),
+    ("rep_ll", "%start S\n%%\nS: { 'a' } 'x';\n"),
+    ("left_lr", "%start S\n%grammar_type 'LALR(1)'\n%%\nS: S 'a' | 'x';\n"),
+    ("right_lr", "%start S\n%grammar_type 'LALR(1)'\n%%\nS: 'a' S | 'x';\n"),
+];
+const DEEP_VARIANTS: [&str; 4] = ["valid", "surplus_at_end", "truncated", "foreign_in_the_middle"];
+
+fn deep_input(g: &str, variant: &str, m: usize) -> String {
+    let nest = g.starts_with("nest") || g.starts_with("unit");
+    let (open, mid, close) = if nest { ("(", "x", ")") } else if g == "left_lr" { ("", "x", "a") } else if g == "list_ll" { ("a", "", "") } else { ("a", "x", "") };
+    let mut s = String::new();
+    s.push_str(&open.repeat(m));
+    match variant {
+        "foreign_in_the_middle" => s.push('?'),
+        _ => s.push_str(mid),
+    }
+    match variant {
+        "truncated" => s.push_str(&close.repeat(m / 2)),
+        _ => s.push_str(&close.repeat(m)),
+    }
+    if variant == "surplus_at_end" {
+        s.push_str(if nest { ")" } else { "?" });
+    }
+    s
+}
+
+/// entry of the worker subprocess: `verif C19-deep <grammar> <variant> <m> <trim> <norecovery>`
+pub fn deep_worker(args: &[String]) -> i32 {
+    let g = args[0].clone();
+    let variant = args[1].clone();
+    let m: usize = args[2].parse().unwrap();
+    let trim = args[3] == "1";
+    let norec = args[4] == "1";
+    // on a thread with Rust's default thread stack size (2 MiB), as `std::thread::spawn` gives it
+    let h = std::thread::Builder::new().stack_size(2 * 1024 * 1024).spawn(move || deep_run(&g, &variant, m, trim, norec)).unwrap();
+    h.join().unwrap_or(3)
+}
+
+fn deep_run(g: &str, variant: &str, m: usize, trim: bool, norec: bool) -> i32 {
+    let Some((_, par)) = DEEP_GRAMMARS.iter().find(|(n, _)| *n == g) else { return 2 };
+    let Ok(Ok((_g, b))) = catch(|| generate_and_bind(par, 3, &GenCfg::default())) else {
+        eprintln!("MACHINERY cannot generate {g}");
+        return 2;
+    };
+    let text = deep_input(g, variant, m);
+    let nest = g.starts_with("nest") || g.starts_with("unit");
+    match catch(|| b.parse_flat(&text, &RunOpts { trim, recovery_disabled: norec, ..Default::default() })) {
+        Ok((ok, _err, _calls)) => {
+            let expect_ok = variant == "valid" || (variant == "truncated" && !nest);
+            if ok != expect_ok {
+                eprintln!("VERDICT ok={ok} expected {expect_ok}");
+                return 4;
+            }
+            0
+        }
+        Err(p) => {
+            eprintln!("PANIC {p}");
+            3
+        }
+    }
+}
+
+fn deep_case(g: &str, variant: &str, m: usize, trim: bool, norec: bool) -> Option<Violation> {
+    use std::os::unix::process::ExitStatusExt;
+    let exe = std::env::current_exe().ok()?;
+    let mut child = std::process::Command::new(exe)
+        .args(["C19-deep", g, variant, &m.to_string(), if trim { "1" } else { "0" }, if norec { "1" } else { "0" }])
+        .stdout(std::process::Stdio::null())
+        .stderr(std::process::Stdio::piped())
+        .spawn()
+        .ok()?;
+    let case = json!({"deep": {"grammar": g, "variant": variant, "m": m, "trim": trim, "no_recovery": norec}});
+    let par = DEEP_GRAMMARS.iter().find(|(n, _)| *n == g).map(|x| x.1.replace('\n', " ")).unwrap_or_default();
+    let desc = format!("[deep] {par}| input {variant} with {m} levels, trim={trim} recovery_off={norec}");
+    let start = Instant::now();
+    loop {
+        match child.try_wait() {
+            Ok(Some(st)) => {
+                let mut e = String::new();
+                if let Some(mut se) = child.stderr.take() {
+                    use std::io::Read;
+                    let _ = se.read_to_string(&mut e);
+                }
+                return match st.code() {
+                    Some(0) => None,
+                    Some(3) => Some(Violation { class: "panic_on_deep_input".into(), what: format!("{desc}: {}", panic_site(e.lines().find(|l| l.starts_with("PANIC")).unwrap_or(""))), case, detail: json!({}) }),
+                    Some(4) => Some(Violation { class: "wrong_verdict_on_deep_input".into(), what: format!("{desc}: {}", e.lines().find(|l| l.starts_with("VERDICT")).unwrap_or("")), case, detail: json!({}) }),
+                    Some(2) => {
+                        eprintln!("MACHINERY: deep worker failed: {e}");
+                        std::process::exit(2)
+                    }
+                    other => Some(Violation {
+                        class: format!("abnormal_exit_on_deep_input({})", if g.ends_with("lr") { "LR" } else { "LL" }),
+                        what: format!("{desc}: worker exits with code {other:?} signal {:?} (stack overflow?)", st.signal()),
+                        case,
+                        detail: json!({"stderr": e.chars().take(300).collect::<String>()}),
+                    }),
+                };
+            }
+            Ok(None) => {
+                if start.elapsed().as_secs() > 900 {
+                    let _ = child.kill();
+                    let _ = child.wait();
+                    return Some(Violation { class: "no_result_on_deep_input_after_900s".into(), what: desc, case, detail: json!({}) });
+                }
+                std::thread::sleep(std::time::Duration::from_millis(20));
+            }
+            Err(_) => return None,
+        }
+    }
+}
+
+fn run_deep(ctx: &Ctx, acc: &Acc, tier: Tier) {
+    let ms: &[usize] = tier.pick(&[20_000], &[2_000, 20_000, 100_000]);
+    let mut jobs = vec![];
+    for (g, _) in DEEP_GRAMMARS {
+        let lr = g.ends_with("lr");
+        if tier == Tier::Quick && !(g.starts_with("nest") || g.starts_with("unit")) {
+            continue;
+        }
+        for v in DEEP_VARIANTS {
+            for m in ms {
+                for trim in [false, true] {
+                    for norec in if lr || tier == Tier::Quick { vec![false] } else { vec![false, true] } {
+                        jobs.push((g, v, *m, trim, norec));
+                    }
+                }
+            }
+        }
+    }
+    acc.count("deep_jobs", jobs.len() as u64);
+    jobs.par_iter().for_each(|(g, v, m, trim, norec)| {
+        if ctx.expired() {
+            acc.count("deep_jobs_skipped_by_cap", 1);
+            return;
+        }
+        acc.eval(1);
+        match deep_case(g, v, *m, *trim, *norec) {
+            Some(vio) => acc.violation(vio),
+            None => {
+                acc.outcome("deep input: Ok or Err as expected");
+                acc.distinct(&(g, v, m, trim, norec));
+            }
+        }
+    });
+}
+
 fn cases(tier: Tier, c19: bool) -> Vec<Case> {
     let mut v = vec![];
     let n = if c19 { tier.pick(4, 5) } else { tier.pick(4, 5) };
@@ -453,6 +611,10 @@ pub fn run(id: &str, tier: Tier, replay: Option<&str>) -> i32 {
     let c19 = id == "C19";
     if let Some(p) = replay {
         let v = read_replay(p);
+        if let Some(d) = v.get("deep") {
+            let (g, var, m, trim, norec) = (d["grammar"].as_str().unwrap().to_string(), d["variant"].as_str().unwrap().to_string(), d["m"].as_u64().unwrap() as usize, d["trim"].as_bool().unwrap(), d["no_recovery"].as_bool().unwrap());
+            return replay_verdict(id, p, || deep_case(&g, &var, m, trim, norec).into_iter().collect());
+        }
         let case: Case = serde_json::from_value(v["case"].clone()).expect("bad replay case");
         return replay_verdict(id, p, || if c19 { eval_c19(&case, &Acc::default()) } else { eval_c20(&case, &Acc::default()) });
     }
@@ -461,7 +623,7 @@ pub fn run(id: &str, tier: Tier, replay: Option<&str>) -> i32 {
     let cs = cases(tier, c19);
     acc.count("grammars", cs.len() as u64);
     let rule = if c19 {
-        "accepted grammars of the C01/C03 spaces (every 3rd in the quick tier) plus a menu of special grammars (terminals matching the empty string, overlapping regexes, comments, left-recursive LR) x every text of length <= n over the terminals, a foreign character, a blank and (every 5th grammar) a 2-byte character, plus long error families w x^m / (x )^m w / w( x)^m for m in {1,2,50,101,150}; recovery on and off; each run inside catch_unwind with an action-call budget and a wall-clock hang monitor (20 s per input). Oracle: Ok or Err, no panic, no hang, at most 101 reported errors.".to_string()
+        "accepted grammars of the C01/C03 spaces (every 3rd in the quick tier) plus a menu of special grammars (terminals matching the empty string, overlapping regexes, comments, left-recursive LR) x every text of length <= n over the terminals, a foreign character, a blank and (every 5th grammar) a 2-byte character, plus long error families w x^m / (x )^m w / w( x)^m for m in {1,2,50,101,150}; recovery on and off; each run inside catch_unwind with an action-call budget and a wall-clock hang monitor (20 s per input); plus a deep family in worker subprocesses: 8 recursive grammars (nesting with and without unit productions, LL and LALR; thorough: also lists) x inputs of 20 000 (thorough: 2 000 / 20 000 / 100 000) levels, parsed on a thread with the default 2 MiB thread stack, valid / with a surplus token at the end / truncated / with a foreign character at the deepest point, x trim x recovery. Oracle: Ok or Err, no panic, no abnormal process exit, no hang, at most 101 reported errors; on the deep family also the expected verdict.".to_string()
     } else {
         "accepted grammars of the C01/C03 spaces (every 6th in the quick tier) plus special grammars x every text of length <= n; baseline = default options; variants: trim, recovery off, both, every depth limit 0..(#production applications + 3) and 10^6, each with/without trim, plus four parsers generated with the options baked into the source. Oracle: verdict and action trace equal the baseline unless MaxParsingDepthExceeded is returned; that error is monotone in the limit, absent at 10^6 and (LL) absent once the limit reaches the number of production applications; never a panic. Non-trivial = grammars on which some depth limit was exceeded.".to_string()
     };
@@ -485,6 +647,9 @@ pub fn run(id: &str, tier: Tier, replay: Option<&str>) -> i32 {
                 }
             }
         });
+    }
+    if c19 {
+        run_deep(&ctx, &acc, tier);
     }
     cs.par_iter().for_each(|c| {
         if ctx.expired() {
